@@ -32,6 +32,29 @@ def geny(p_geny):
     yield p_geny or "value-dependent"
 
 
+def emptied(p_emptied):
+    """hands back the very dict it was given, emptied in place"""
+    if type(p_emptied) is dict:
+        p_emptied.clear()
+    return p_emptied
+
+
+def rekeyed(p_rekeyed):
+    """hands back the very dict it was given, re-keyed in place to integer keys"""
+    if type(p_rekeyed) is dict:
+        items = list(p_rekeyed.items())
+        p_rekeyed.clear()
+        for i, (_, v) in enumerate(items):
+            p_rekeyed[i] = v
+    return p_rekeyed
+
+
+def gen_emptied(p_genemptied):
+    if type(p_genemptied) is dict:
+        p_genemptied.clear()
+    yield p_genemptied
+
+
 class C:
     def m(self, p_m):
         return p_m
